@@ -83,11 +83,11 @@ PROPS = {
                      'message IDs are unique per message (the default and every sane MsgIdFunction)'],
     ),
     'C06': dict(
-        coq=['Props/C06', 'Run/GossipRun'],
-        go=[dict(run='^TestVF_Gossip$')],
-        rewrite_check=[('check_gcase', '(check_gcase_for 6)')],
+        coq=['Props/C06', 'Run/GossipRun', 'Run/SimpleRun'],
+        go=[dict(run='^TestVF_Gossip$'), dict(run='^TestVF_Simple$')],
+        rewrite_check=[('check_gcase', '(check_gcase_for 6)'), ('check_srcase', '(check_srcase_for 6)')],
         trusted_base=['hand-written model Model/Gossip.v (rpcs recipient computation, fanout creation) and Model/Router.v (fanout maintenance)',
-                      'FloodSubRouter.Publish and RandomSubRouter.Publish are not part of this model (gossipsub router only)',
+                      'FloodSubRouter.Publish and RandomSubRouter.Publish: Model/SimpleRouters.v',
                       'field-for-field equality of forwarded copies is checked by the harness on the real wire messages, not proved'],
         assumptions=['partial-message extension off (iSupportSendingPartial false)'],
     ),
@@ -106,5 +106,13 @@ PROPS = {
                       'the theorems are proved for the exact-rational instance of the same definitions (no rounding); rounding is covered only by the bit-for-bit correspondence'],
         assumptions=['at most two scored topics per parameter set in the correspondence (score() sums topics in map order and float addition is not associative)',
                      'IP addresses are assigned by the harness through setIPs (no real connections)'],
+    ),
+    'C19': dict(
+        coq=['Props/C19', 'Run/GossipRun', 'Run/SimpleRun'],
+        go=[dict(run='^TestVF_Gossip$'), dict(run='^TestVF_Simple$')],
+        rewrite_check=[('check_gcase', '(check_gcase_for 19)'), ('check_srcase', '(check_srcase_for 19)')],
+        trusted_base=['Model/Trace.v (the meaning of replaying ADD_PEER / REMOVE_PEER / JOIN / LEAVE / GRAFT / PRUNE as set operations); the ground truth is the snapshot the harness takes inside the event loop',
+                      'the property itself (real trace vs real state, exactly-once clauses) is decided by monitors on observed events, not by a theorem about the code'],
+        assumptions=[],
     ),
 }
